@@ -307,7 +307,12 @@ def check_net(net):
     if "press_control" in net and len(net.press_control):
         for idx, r in net.press_control.iterrows():
             rr = net.res_press_control.loc[idx]
-            if r.in_service and r.control_active and not np.isnan(rr.mdot_from_kg_per_s):
+            fixed_elsewhere = len(net.ext_grid) and bool(((net.ext_grid.junction == r.controlled_junction) & net.ext_grid.in_service
+                                                          & net.ext_grid.type.isin(["p", "pt"])).any())
+            if fixed_elsewhere and r.in_service and r.control_active:
+                # two contradicting set-points for one junction (ext grid and controller): not a valid description
+                cnt("press_control_conflicts_with_ext_grid")
+            elif r.in_service and r.control_active and not np.isnan(rr.mdot_from_kg_per_s):
                 cnt("press_control")
                 sig.append(("pc", r.controlled_p_bar))
                 if not near(pj[r.controlled_junction], r.controlled_p_bar, 1e-10):
